@@ -11,7 +11,11 @@ if "--workers" in argv:
     del argv[i:i + 2]
 pref = argv[0] if argv else ""
 # mutants that are NOT violations by design (reported as drift / equivalent): see DESIGN.md section 10
-EXPECTED_UNDETECTED = {"C11/typed_receive_no_assert.diff"}
+EXPECTED_UNDETECTED = {
+    "C11/typed_receive_no_assert.diff",        # a typed receive before accept still raises: drift, not a violation
+    "C01/last_newline_max.diff",               # last_newline() is dead code since repair fee95f8: equivalent now
+    "C05/sse_wsgi_connection_header.diff",     # superseded by repair 4de2eba: list_headers() drops hop-by-hop headers on WSGI whatever their origin
+}
 BASE = "/tmp/rerun_wt"
 todo = [f for f in sorted(glob.glob("/verif/mutants/*/*.diff")) if not pref or os.path.basename(os.path.dirname(f)) == pref]
 bad, lock = [0], threading.Lock()
